@@ -339,6 +339,11 @@ def build_module(c):
                     '_ns%d = {"prev": %s}' % (i, prev),
                     'exec(compile(_text%d, _name%d, "exec"), _ns%d)' % (i, i, i),
                     'def %s(x):' % fn, '    return _ns%d["dyn"](x)' % i, '']
+        elif link == 'hide':
+            # a frame that asks test runners / web debuggers to leave it out (__tracebackhide__ of pytest,
+            # __traceback_hide__ of Werkzeug): the interpreter and the traceback module list it like any other
+            src += ['def %s(x):' % fn, '    __tracebackhide__ = True', '    __traceback_hide__ = True',
+                    '    return %s(x)' % prev, '']
         elif link == 'nested':
             src += ['def %s(x):' % fn, '    def inner(z):', '        return %s(z)' % prev, '    return inner(x)', '']
         else:   # exec'd code: frames without source
@@ -616,6 +621,10 @@ def gen_live(r):
         c['marks'] = sorted(MARKS)[pick]
     elif pick in (8, 9) and c['exc'] not in ('ZeroDivisionError', 'AttributeError'):
         c['msg'] = sorted(MSG_EXTRA)[pick - 8]
+    elif pick in (10, 11) and chain:
+        # (a substitution on the finished chain, no draw) one link becomes a frame carrying the hide-me markers
+        c['chain'] = list(chain)
+        c['chain'][(len(chain) * 5 + pick) % len(chain)] = 'hide'
     return c
 
 
